@@ -2,7 +2,7 @@
 import json, os
 from vlib import core
 
-THEOREMS = ["Props.C06." + t for t in ["const_value", "const_value_named", "const_value_fails_escaped_quote", "const_value_fails_foreign_struct_literal", "const_value_fails_optional_enum_member", "string_literal_emission", "string_literal_value", "string_literal_plain", "string_literal_defects", "newX_defaults", "initDefault_zero_eq_newX", "getter_default", "getter_set", "isset_optional_default", "isset_pointer", "predicate_tables_sound"]]
+THEOREMS = ["Props.C06." + t for t in ["const_value", "const_value_named", "const_value_fails_escaped_quote", "const_value_fails_foreign_struct_literal", "const_value_fails_optional_enum_member", "const_reject_iff", "kind_mismatch_rejected", "container_tolerance", "string_literal_emission", "string_literal_value", "string_literal_plain", "string_literal_defects", "newX_defaults", "initDefault_zero_eq_newX", "getter_default", "getter_set", "isset_optional_default", "isset_pointer", "predicate_tables_sound"]]
 
 def run(ctx):
     exe = ctx.go_build("c06")
@@ -26,9 +26,13 @@ def run(ctx):
         if ctx.tier == "thorough":
             ctx.leanchecker(["ThriftVerif.Props.C06"])
     if exe:
-        args = [exe, "run", "-repo", core.REPO, "-dir", ctx.work, "-seed", str(ctx.seed), "-tier", ctx.tier]
+        seed, only, extra = ctx.seed, None, []
         if ctx.replay:
-            args = [exe, "replay", "-repo", core.REPO, "-dir", ctx.work, "-seed", str(ctx.seed), "-tier", ctx.tier, "-file", ctx.replay]
+            doc = json.load(open(ctx.replay))
+            seed, only = doc.get("seed", seed), doc.get("key")
+            if only and only.startswith("defect:"):
+                extra = ["-programs", "-1", "-wild", "0"]      # the catalogue and the literal defects are seed independent
+        args = [exe, "run", "-repo", core.REPO, "-dir", ctx.work, "-seed", str(seed), "-tier", ctx.tier] + extra
         rc, out = core.sh(args, timeout=3400)
         print(out[-3000:])
         if rc not in (0, 1) or not os.path.exists(os.path.join(ctx.work, "stats.json")):
@@ -37,6 +41,8 @@ def run(ctx):
         ctx.cov.update(evaluations=st["evaluations"], distinct_nontrivial=st["distinct_nontrivial"], samples=st["samples"] or [],
                        distribution=st["distribution"], programs=sum(v for k, v in st["distribution"].items() if k.startswith("unit.options.")))
         for f in (st.get("oracle_failures") or []):
+            if only and f["key"] != only:
+                continue
             ctx.add_violation(f["key"], f["what"], f["input"], f["expected"], f["observed"])
         if drv:
             ops = os.path.join(ctx.work, "ops.txt")
